@@ -30,6 +30,11 @@ func vCommand(router *Router, which int, topts TargetOptions, tag string) {
 func HarnessCmdMix() {
 	vT2(vParam("preemptions", 1), vParam("firings", 8))
 	vWatchPauseEvents()
+	if vParam("policies", 1) == 2 {
+		// latest-started-first as a second default policy: the request and the helpers spawned by the commands get to run
+		// before the commands that were started earlier
+		vSchedPolicy(vChoose("sched_policy", 2))
+	}
 	vSortMode = 0
 	vSnapshotReal = true
 	vMapOrderFixed(true)
